@@ -234,6 +234,11 @@ class SymVal(object):
             return
         sv = self.ev(ks[-1], st)
         if not self._tracked(d):
+            # a write-once local of any type stands for its initialiser (alternatives kept)
+            if d.get('id') in self.F.never_written and sv is not None and d.get('id') not in self.addr_taken and \
+                    d.get('storageClass') != 'static' and (
+                        len(sv) > 1 or (sv[0][1][0] == 'key' and re.match(r'^\w+#0x[0-9a-f]+$', sv[0][1][2]))):
+                st['vals'][d['id']] = sv       # a copy of, or a choice between, other locals
             return
         t = (qtype(d) or '').rstrip()
         if t.endswith('&') and not t.endswith('&&'):
